@@ -311,6 +311,11 @@ def work(args):
                 got = canon_outcome(b2.run(mode, rule, text, 0, timeout=20.0))
                 out["evals"] += 1
                 want = base_res[(rule, text, mode)]
+                if got == ("EXC", "Timeout") and want != got:
+                    # e -> ((e ~ NEVER) | e) makes every level of a recursive rule try its body twice: the
+                    # rewritten grammar means the same and can need exponential time. The timer is not a verdict.
+                    out["slow"] = out.get("slow", 0) + 1
+                    break
                 if got != want:
                     out["viol"].append({"what": f"mode {mode}: result changed by a meaning-preserving rewrite",
                                         "gpath": gpath, "rewrites": descs, "rule": rule, "text": text,
